@@ -99,21 +99,20 @@ def is_constant_definition(node: ast.Constant, parent: ast.AST | None) -> bool:
     if not _is_assignment_node(parent):
         return False
 
-    # Type narrowing: parent is ast.Assign after the check above
-    assert isinstance(parent, ast.Assign)  # nosec B101
+    # Type narrowing: parent is an assignment after the check above
+    assert isinstance(parent, (ast.Assign, ast.AnnAssign))  # nosec B101
     return _has_constant_target(parent)
 
 
 def _is_assignment_node(parent: ast.AST | None) -> bool:
-    """Check if parent is an assignment node."""
-    return parent is not None and isinstance(parent, ast.Assign)
+    """Check if parent is an assignment node (plain or annotated)."""
+    return parent is not None and isinstance(parent, (ast.Assign, ast.AnnAssign))
 
 
-def _has_constant_target(parent: ast.Assign) -> bool:
+def _has_constant_target(parent: ast.Assign | ast.AnnAssign) -> bool:
     """Check if assignment has uppercase constant target."""
-    return any(
-        isinstance(target, ast.Name) and _is_constant_name(target.id) for target in parent.targets
-    )
+    targets = parent.targets if isinstance(parent, ast.Assign) else [parent.target]
+    return any(isinstance(target, ast.Name) and _is_constant_name(target.id) for target in targets)
 
 
 def _is_constant_name(name: str) -> bool:
